@@ -169,6 +169,11 @@ fn new_config(mocks: &[crate::mock::MockServer], c: &Case, port: u16) -> (String
     (text, valid)
 }
 
+/// Was this backend session opened before log position `mark` (the reload)?
+fn open_before(log: &[Event], mark: usize, c: (usize, u64)) -> bool {
+    log.iter().take(mark).any(|e| e.server == c.0 && e.conn == c.1 && matches!(e.kind, EvKind::Open { .. }))
+}
+
 fn conns_of_tag(log: &[Event], t: Tag) -> Vec<(usize, u64)> {
     log.iter().filter_map(|e| match &e.kind {
         EvKind::Rx { tags, .. } if tags.contains(&t) => Some((e.server, e.conn)),
@@ -368,8 +373,9 @@ async fn run_case(c: &Case, ctx: &mut WorkerCtx) -> Outcome {
             bail!("changed-pool-not-in-effect", format!("after {:?} the pa client's new transaction ran on {:?} (allowed backends {:?})", c.change, a_after.iter().map(|(s, _)| env.mocks[*s].label.clone()).collect::<Vec<_>>(), allowed));
         }
     } else {
-        // unchanged definition: same backend connection as before, none opened
-        if a_after != a_before {
+        // unchanged definition: a backend connection that was open before the reload (pool_size is 2: under load the pool may
+        // already hold a second idle connection, and which of them bb8 hands out next is not specified), none opened
+        if a_after.iter().any(|c| !open_before(&env.log(), mark, *c)) {
             bail!("unchanged-pool-lost-its-connections", format!("pa is unchanged by {:?} but its client moved from backend connection {:?} to {:?}", c.change, a_before, a_after));
         }
     }
@@ -399,7 +405,7 @@ async fn run_case(c: &Case, ctx: &mut WorkerCtx) -> Outcome {
         if b_after.iter().any(|(s, _)| *s != B1) {
             bail!("misrouted-after-reload", format!("pb client's transaction ran on {:?}", b_after));
         }
-        if !pb_changed && b_after != b_before {
+        if !pb_changed && b_after.iter().any(|c| !open_before(&env.log(), mark, *c)) {
             bail!("unchanged-pool-lost-its-connections", format!("pb is unchanged by {:?} but its client moved from backend connection {:?} to {:?}", c.change, b_before, b_after));
         }
         if pb_changed {
